@@ -1290,3 +1290,113 @@ def shrink_cuts(n, sizes, still_fails):
         return images.sizes_from_cuts(cuts, n)
     small = common.shrink_list(cuts, lambda c: still_fails(images.sizes_from_cuts(c, n)), max_steps=150)
     return images.sizes_from_cuts(small, n)
+
+
+# --------------------------------------------------------------------------
+# sparse streams: images with structures beyond 4 GiB, presented without materialising the zeros
+
+_ZERO = {}
+
+
+def zeros(n):
+    """one shared bytes object per size (feeding it again costs nothing)"""
+    if n not in _ZERO:
+        if len(_ZERO) > 64:
+            _ZERO.clear()
+        _ZERO[n] = bytes(n)
+    return _ZERO[n]
+
+
+class Sparse:
+    """a stream given by its non-zero extents {offset: bytes} and its total length"""
+
+    def __init__(self, fmt, extents, total, tag, declared=None, params=None):
+        self.fmt, self.total, self.tag, self.declared, self.params = fmt, total, tag, declared, params or {}
+        self.extents = sorted((o, bytes(b)) for o, b in extents.items())
+        for (o, b), (o2, _) in zip(self.extents, self.extents[1:]):
+            if o + len(b) > o2:
+                raise ValueError('overlapping extents')
+
+    def piece(self, a, b):
+        """bytes of [a, b): the shared zero object when no extent intersects"""
+        hit = [(o, d) for o, d in self.extents if o < b and o + len(d) > a]
+        if not hit:
+            return zeros(b - a)
+        if len(hit) == 1 and hit[0][0] == a and len(hit[0][1]) == b - a:
+            return hit[0][1]
+        buf = bytearray(b - a)
+        for o, d in hit:
+            lo, hi = max(o, a), min(o + len(d), b)
+            buf[lo - a:hi - a] = d[lo - o:hi - o]
+        return bytes(buf)
+
+    def chunks(self, cuts):
+        pos = 0
+        for c in list(cuts) + [self.total]:
+            if c > pos:
+                yield self.piece(pos, c)
+                pos = c
+
+    def cuts_grid(self, step):
+        return list(range(step, self.total, step))
+
+    def cuts_extents(self, step=16 << 20):
+        """every extent as its own chunk, the gaps in `step`-sized pieces"""
+        cuts, pos = [], 0
+        for o, d in self.extents + [(self.total, b'')]:
+            cuts += list(range(pos + step, o, step))
+            cuts += [o, o + len(d)]
+            pos = o + len(d)
+        return sorted({c for c in cuts if 0 < c < self.total})
+
+    def plan(self, name):
+        """the named chunk plans: 'extents', 'grid<bytes>', 'cut@<offset>' (extents plus one cut)"""
+        if name == 'extents':
+            return self.cuts_extents()
+        if name.startswith('grid'):
+            return self.cuts_grid(int(name[4:]))
+        if name.startswith('cut@'):
+            return sorted(set(self.cuts_extents() + [int(name[4:])]))
+        raise ValueError(name)
+
+    def case(self, plan):
+        return {'kind': 'sparse', 'fmt': self.fmt, 'total': self.total, 'tag': self.tag,
+                'extents': {str(o): content_field(d) for o, d in self.extents}, 'plan': plan,
+                'declared': self.declared, 'params': self.params}
+
+
+def sparse_of_case(c):
+    sp = Sparse(c['fmt'], {int(o): decode_content(d) for o, d in c['extents'].items()}, c['total'], c.get('tag', ''),
+                c.get('declared'), c.get('params'))
+    return sp, sp.plan(c['plan'])
+
+
+def sparse_run(sp, cuts, query=None, ctor=None):
+    """present the sparse stream to a fresh inspector; (verdict string, inspector)"""
+    F = insp_impl.fi()
+    i = F.ALL_FORMATS[sp.fmt](**(ctor or {}))
+    raised = None
+    for chunk in sp.chunks(cuts):
+        try:
+            i.eat_chunk(chunk)
+        except Exception as e:
+            raised = insp_impl.errname(e)
+            break
+        if query:
+            query(i)
+    i.finish()
+    return insp_impl.show_verdict(i, raised), i
+
+
+def vhdx_far(size, meta_off, nmeta=5, vidx=2, item_off=None, tail=0, stale=None, nreg=2, midx=1):
+    """a well-formed VHDX whose region table places the metadata region at `meta_off` (any 64-bit file offset);
+    `stale` = declared size of an old, no longer referenced metadata region left in free space at meta_off mod 2^32"""
+    item_off = 32 + 32 * nmeta if item_off is None else item_off
+    head = images.vhdx(size=size, meta_off=meta_off, nreg=nreg, midx=midx, nmeta=nmeta, vidx=vidx, item_off=item_off, total=320 * K)[0]
+    meta = images.vhdx(size=size, meta_off=256 * K, nmeta=nmeta, vidx=vidx, item_off=item_off, total=256 * K + item_off + 8)[0][256 * K:]
+    ext = {0: head[:256 * K], meta_off: meta}
+    if stale is not None and 320 * K <= meta_off % (1 << 32) and meta_off >= 1 << 32:
+        ext[meta_off % (1 << 32)] = images.vhdx(size=stale, meta_off=256 * K, nmeta=nmeta, vidx=vidx, item_off=item_off,
+                                                total=256 * K + item_off + 8)[0][256 * K:]
+    return Sparse('vhdx', ext, meta_off + len(meta) + tail, 'wf/vhdx/far', size,
+                  dict(size=size, meta_off=meta_off, nmeta=nmeta, vidx=vidx, item_off=item_off, stale=stale))
